@@ -10,6 +10,7 @@
  *        vs  ares_htable_vpstr  (pointer keys, string values)
  *        str ares_htable_strvp  (case-insensitive string keys)
  *        dict ares_htable_dict  (case-insensitive string keys, string values)
+ *        fnv  no table: h:<seed>:<string> prints ares_htable_hash_FNV1a/_casecmp of the string
  * ops:   i:<k>:<v>        insert                         -> i1 | i1~<freed> | i0
  *        fi:<n>:<k>:<v>   insert, allocation #n (0-based, counted from the call) fails
  *        g:<k>            get                            -> N | <k>=<v> (generic) | <v>
@@ -18,6 +19,8 @@
  *        a                iteration, sorted              -> a[..] | aN   (g*: all_buckets,
  *                         as/dict: keys; sz/vv/vs/str: get of every key of the case -> p[..])
  *        fa               g*: all_buckets with a failing allocation -> aN
+ *        fa:<n>           as/dict: keys() with allocation #n failing  -> aN (a[..] if the call
+ *                         makes fewer requests)
  *        c:<k>            str: claim                     -> cN | c<v>~<freed>
  * at the end: (sz/vv/vs/str: p[..] probe of every key of the case,) D[<freed by destroy>, sorted]
  * output: "<k> R tok tok ..." and, for the generic modes, a second line
@@ -279,6 +282,21 @@ static void run_ht(long k, char *ops)
   } else if (strcmp(op, "dict") == 0) {
     mode = M_DICT;
     dict = ares_htable_dict_create();
+  } else if (strcmp(op, "fnv") == 0) {
+    /* h:<seed>:<string> -> <FNV1a>/<FNV1a_casecmp> of the library */
+    printf("%ld R", k);
+    while ((op = strtok_r(NULL, ";", &save)) != NULL) {
+      char *f[3];
+      if (ht_split(op, f, 3) == 3 && strcmp(f[0], "h") == 0) {
+        unsigned int seed = (unsigned int)strtoul(f[1], NULL, 10);
+        printf(" %u/%u", ares_htable_hash_FNV1a((const unsigned char *)f[2], strlen(f[2]), seed),
+               ares_htable_hash_FNV1a_casecmp((const unsigned char *)f[2], strlen(f[2]), seed));
+      } else {
+        printf(" BADOP");
+      }
+    }
+    printf("\n");
+    goto out;
   } else {
     printf("%ld R BADMODE\n", k);
     goto out;
@@ -490,13 +508,16 @@ static void run_ht(long k, char *ops)
       }
       snprintf(tmp, sizeof(tmp), " n%zu", n);
       sb_add(&R, tmp);
-    } else if ((strcmp(f[0], "a") == 0 || strcmp(f[0], "fa") == 0) && nf == 1) {
-      int failing = f[0][0] == 'f';
+    } else if ((strcmp(f[0], "a") == 0 && nf == 1) ||
+               (strcmp(f[0], "fa") == 0 && nf == (mode == M_G ? 1 : 2))) {
+      int  failing = f[0][0] == 'f';
+      long failn   = failing ? (nf == 2 ? atol(f[1]) : 0) : -1;
       ht_tok_reset();
       if (mode == M_G) {
         size_t       num = 12345;
         const void **all;
         ht_fail_countdown = failing ? 0 : -1;
+        (void)failn;
         all               = ares_htable_all_buckets(g, &num);
         ht_fail_countdown = -1;
         if (all == NULL) {
@@ -515,11 +536,16 @@ static void run_ht(long k, char *ops)
           ht_tok_emit(&R, " a", 1);
           ares_free(all);
         }
-      } else if (failing) {
+      } else if (failing && ((mode != M_AS && mode != M_DICT) || failn < 0 ||
+                             failn > (mode == M_AS ? 1 : 2))) {
+        /* as: all_buckets array, key array; dict: all_buckets array, key array, first key copy */
         sb_add(&R, " BADOP");
       } else if (mode == M_AS) {
-        size_t         num  = 12345;
-        ares_socket_t *keys = ares_htable_asvp_keys(as, &num);
+        size_t         num = 12345;
+        ares_socket_t *keys;
+        ht_fail_countdown = failn;
+        keys              = ares_htable_asvp_keys(as, &num);
+        ht_fail_countdown = -1;
         if (keys == NULL) {
           sb_add(&R, num == 0 ? " aN" : " aN-BADNUM");
         } else {
@@ -531,8 +557,11 @@ static void run_ht(long k, char *ops)
           ares_free(keys);
         }
       } else if (mode == M_DICT) {
-        size_t num  = 12345;
-        char **keys = ares_htable_dict_keys(dict, &num);
+        size_t num = 12345;
+        char **keys;
+        ht_fail_countdown = failn;
+        keys              = ares_htable_dict_keys(dict, &num);
+        ht_fail_countdown = -1;
         if (keys == NULL) {
           sb_add(&R, num == 0 ? " aN" : " aN-BADNUM");
         } else {
